@@ -31,6 +31,7 @@ pub const SUBS: &[SubDef] = &[
     SubDef { prop: "C10", name: "records", oracle: records },
     SubDef { prop: "C10", name: "hs_header", oracle: hs_header },
     SubDef { prop: "C10", name: "datagram", oracle: datagram },
+    SubDef { prop: "C10", name: "trailing_inside", oracle: trailing_inside },
     SubDef { prop: "C10", name: "frame_raw", oracle: frame_raw },
 ];
 // message_level is an enumeration inside run(): it has no tape oracle to replay
@@ -53,6 +54,7 @@ fn run(ctx: &Ctx) {
     ctx.run_tape("records", records, ctx.pick(50_000, 500_000), 700);
     ctx.run_tape("hs_header", hs_header, ctx.pick(50_000, 500_000), 200);
     ctx.run_tape("datagram", datagram, ctx.pick(20_000, 200_000), 1500);
+    ctx.run_tape("trailing_inside", trailing_inside, ctx.pick(30_000, 200_000), 1500);
     ctx.run_tape("frame_raw", frame_raw, ctx.pick(50_000, 400_000), 80);
     // records packed to the cap with the smallest messages of each kind: alerts (2 bytes), ChangeCipherSpec (1 byte), header-only
     // handshake messages and zero-length fragments (12 bytes) - message counts on both sides of 2^14 / size and of the 2^14+256 cap / size
@@ -337,6 +339,83 @@ fn records(t: &mut Tape, obs: &mut Obs) -> R {
     cuts.retain(|c| *c <= buf.len());
     for c in cuts {
         check_cut(&buf[..c], obs)?;
+    }
+    Ok(())
+}
+
+/// A handshake record whose messages all decode, with something undecodable appended INSIDE the record (a few stray bytes, the header of a
+/// further message cut short, a complete message of a type that has no body decoder, a message declaring more than is there): the messages
+/// in front of it must still decode to the values that were encoded, the record is consumed whole, and the record that follows in the
+/// datagram is still reached. Only the prefix is demanded; whatever the tail decodes to (or not) is not judged.
+fn trailing_inside(t: &mut Tape, obs: &mut Obs) -> R {
+    let mut rec = gen_dtls_record(t);
+    for _ in 0..4 {
+        if rec.ctype == 0x16 && !rec.msgs.is_empty() {
+            break;
+        }
+        rec = gen_dtls_record(t);
+    }
+    if rec.ctype != 0x16 || rec.msgs.is_empty() {
+        return Ok(());
+    }
+    let plain = rec.to_bytes();
+    let payload = &plain[13..];
+    let (kind, x): (&str, Vec<u8>) = match t.below(4) {
+        0 => ("stray-bytes", { let n = 1 + t.below(11); t.bytes(n) }),
+        1 => {
+            // complete message of a type without a body decoder in DTLS (ServerKeyExchange, CertificateRequest, CertificateVerify, Finished, unassigned)
+            let body = t.small_blob(40);
+            let mut e = Enc::new();
+            e.u8(t.pick(&[12u8, 13, 15, 20, 0x63]));
+            e.u24(body.len() as u32);
+            e.u16(t.below(8) as u16);
+            e.u24(0);
+            e.u24(body.len() as u32);
+            e.bytes(&body);
+            ("undecoded-type", e.buf)
+        }
+        2 => {
+            // a ServerHelloDone header declaring a body that is not there
+            let mut e = Enc::new();
+            e.u8(14);
+            e.u24(5);
+            e.u16(9);
+            e.u24(0);
+            e.u24(5);
+            ("declares-more", e.buf)
+        }
+        _ => ("cut-header", { let n = 1 + t.below(11); vec![11u8; n] }),
+    };
+    if payload.len() + x.len() > 16384 {
+        return Ok(());
+    }
+    let mut buf = plain[..11].to_vec();
+    let total = (payload.len() + x.len()) as u16;
+    buf.extend_from_slice(&total.to_be_bytes());
+    buf.extend_from_slice(payload);
+    buf.extend_from_slice(&x);
+    let rec_len = buf.len();
+    let next = MDtlsRecord { ctype: 0x14, version: rec.version, epoch: rec.epoch, seq: (rec.seq + 1) & 0xffff_ffff_ffff, msgs: vec![MDtlsMsg::Ccs] };
+    let follow = t.bool();
+    if follow {
+        buf.extend(next.to_bytes());
+    }
+    obs.nontrivial(fnv64(&buf));
+    obs.sample_class(kind, || json!({"tail_inside_record": kind, "messages_before": rec.msgs.len(), "followed_by_ccs_record": follow, "hex": hex_short(&buf)}));
+    match call(&buf)? {
+        Out::Ok { rem_off, rem_len, rec: got, .. } => {
+            ensure!(rem_len == buf.len() - rec_len && (rem_len == 0 || rem_off == rec_len), "C10:trailing-inside:consumed", "record of {} bytes with {} inside: remainder at offset {} len {}", rec_len, kind, rem_off, rem_len);
+            if let Some(g) = got {
+                ensure!(g.msgs.len() >= rec.msgs.len() && g.msgs[..rec.msgs.len()] == rec.msgs[..] && (g.ctype, g.version, g.epoch, g.seq) == (rec.ctype, rec.version, rec.epoch, rec.seq), "C10:trailing-inside:prefix", "handshake record with {} after {} decodable message(s): decoded {} expected a list starting with {} (wire {})", kind, rec.msgs.len(), trunc(&format!("{:?}", g.msgs)), trunc(&format!("{:?}", rec.msgs)), hex_short(&buf));
+            }
+            if follow {
+                match call(&buf[rec_len..])? {
+                    Out::Ok { rec: Some(g2), .. } => ensure!(g2 == next, "C10:trailing-inside:next-record", "the record following it decoded to {:?}", g2),
+                    o => return fail("C10:trailing-inside:next-record", format!("the ChangeCipherSpec record following it was not decoded: {}", describe(&o))),
+                }
+            }
+        }
+        o => return fail("C10:trailing-inside:rejected", format!("a handshake record whose first {} message(s) decode was rejected because of {} behind them: {} (wire {})", rec.msgs.len(), kind, describe(&o), hex_short(&buf))),
     }
     Ok(())
 }
